@@ -14,7 +14,7 @@ from __future__ import annotations
 import ast
 from fractions import Fraction
 
-from .core import AnalysisError, loc, norm_src, walk_no_nested, dotted, str_const
+from .core import AnalysisError, loc, norm_src, walk_no_nested, dotted, str_const, Inliner
 from .flow import Flow
 from .symx import Interp, Obj, Path, PList, PDict, RLE, RLECat, Opaque, Unsupported, explore, Abort, NSYM
 from .rat import Rat
@@ -110,14 +110,14 @@ def shut(index, rep):
             raise AnalysisError(f"{meth}: no completing path")
     # durations come from the configured delays, biofuel/feed not crossed, returned as (biofuels, feed)
     g = index.func(FAB, "FeedAndBiofuels.get_biofuels_and_feed_from_delayed_shutoff")
-    asg = {norm_src(s.targets[0]): norm_src(s.value) for s in g.body if isinstance(s, ast.Assign)}
-    ok = asg.get("biofuel_duration") == "constants_for_params['DELAY']['BIOFUEL_SHUTOFF_MONTHS']" and \
-        asg.get("feed_duration") == "constants_for_params['DELAY']['FEED_SHUTOFF_MONTHS']" and \
-        asg.get("biofuels") == "self.get_biofuel_usage(biofuel_duration)" and asg.get("feed") == "self.get_feed_usage(feed_duration)"
-    rep.check(ok, rule, "durations:from-configured-delays", "the schedules are not built from DELAY[BIOFUEL|FEED_SHUTOFF_MONTHS] respectively",
-              loc=loc(FAB, g), detail=str(asg))
+    inl = Inliner(g)
+    cp = g.args.args[1].arg if len(g.args.args) > 1 else "constants_for_params"
     rets = [r for r in g.body if isinstance(r, ast.Return)]
-    rep.check(len(rets) == 1 and [norm_src(e) for e in rets[0].value.elts] == ["biofuels", "feed"], rule, "returns:(biofuels, feed)",
+    got = [inl.src(e) for e in rets[0].value.elts] if len(rets) == 1 and isinstance(rets[0].value, ast.Tuple) else []
+    want = [f"self.get_biofuel_usage({cp}['DELAY']['BIOFUEL_SHUTOFF_MONTHS'])", f"self.get_feed_usage({cp}['DELAY']['FEED_SHUTOFF_MONTHS'])"]
+    rep.check(got == want, rule, "durations:from-configured-delays", "the schedules are not built from DELAY[BIOFUEL|FEED_SHUTOFF_MONTHS] respectively",
+              loc=loc(FAB, g), detail=str(got))
+    rep.check(len(got) == 2 and got[0].startswith("self.get_biofuel_usage(") and got[1].startswith("self.get_feed_usage("), rule, "returns:(biofuels, feed)",
               "get_biofuels_and_feed_from_delayed_shutoff no longer returns (biofuels, feed)", loc=loc(FAB, g))
     rep.require_min(rule, 10)
 
@@ -130,18 +130,19 @@ def wire(index, rep, flow):
     ras = index.func(RUN, "ScenarioRunner.run_and_analyze_scenario")
     want = {"assert_feed_used_below_feed_demand": "src:get_feed_usage", "assert_biofuels_used_below_biofuels_demand": "src:get_biofuel_usage"}
     seen = {}
+    inl_ras = Inliner(ras)
     for c in walk_no_nested(ras):
         if isinstance(c, ast.Call) and isinstance(c.func, ast.Attribute) and c.func.attr in want:
             rnd = [k.value.value for k in c.keywords if k.arg == "round" and isinstance(k.value, ast.Constant)]
             rnd = rnd[0] if rnd else None
             org = flow.origin(ras, c.args[0], before=c.lineno)
-            res = norm_src(c.args[1]) if len(c.args) > 1 else "?"
+            res = inl_ras.src(c.args[1]) if len(c.args) > 1 else "?"
             seen.setdefault(c.func.attr, {})[rnd] = (org, res, c)
             rep.check(org == {want[c.func.attr]}, rule, f"{c.func.attr}[round {rnd}]:demand-provenance",
                       f"the demand passed to the validator originates from {sorted(org)}, expected {want[c.func.attr]} "
                       "(feed and biofuel demand crossed somewhere along the tuple hand-offs)", loc=loc(RUN, c))
-            rep.check(res == f"interpreted_results_round{rnd}", rule, f"{c.func.attr}[round {rnd}]:results-of-that-round",
-                      f"round {rnd} is validated on {res}", loc=loc(RUN, c))
+            rep.check(res.startswith(f"self.run_round_{rnd}("), rule, f"{c.func.attr}[round {rnd}]:results-of-that-round",
+                      f"round {rnd} is validated on {res[:60]}", loc=loc(RUN, c))
     for name in want:
         rounds = set(seen.get(name, {}))
         rep.check(rounds == {1, 2, 3}, rule, f"{name}:every-round", f"use is validated against demand only in rounds {sorted(map(str, rounds))}",
@@ -275,10 +276,12 @@ def pin(index, rep, flow):
     rep.check(ok and org == {"src:calculate_human_consumption_for_min_needs"}, rule, "round2:pins-the-round1-hand-off",
               f"the human consumption pinned in round 2 originates from {sorted(org)}, expected calculate_human_consumption_for_min_needs",
               loc=loc(RUN, call[0]))
-    args = [norm_src(a) for a in call[0].args[:2]]
-    org_c = flow.origin(rr2, call[0].args[0], before=call[0].lineno)
-    rep.check(args == ["consts_for_optimizer_round2", "time_consts_round2"], rule, "round2:uses-round2-constants",
-              f"round 2 is solved with {args}", loc=loc(RUN, call[0]))
+    inl2 = Inliner(rr2)
+    args = [inl2.src(a) for a in call[0].args[:2]]
+    okc = len(args) == 2 and all(".compute_parameters_second_round(" in a for a in args) and args[0].endswith("[0]") and args[1].endswith("[1]") \
+        and args[0][:-3] == args[1][:-3]
+    rep.check(okc, rule, "round2:uses-round2-constants",
+              f"round 2 is not solved with (constants, monthly constants) returned by compute_parameters_second_round: {[a[:70] for a in args]}", loc=loc(RUN, call[0]))
     ro = index.func(RUN, "ScenarioRunner.run_optimizer")
     c2 = [c for c in walk_no_nested(ro) if isinstance(c, ast.Call) and dotted(c.func) == "optimizer.optimize_feed_to_animals"]
     ok = len(c2) == 1 and [norm_src(a) for a in c2[0].args] == ["consts_for_optimizer", "time_consts", "min_human_food_consumption"]
@@ -312,10 +315,23 @@ def r3(index, rep, flow):
         st = getattr(st, "_parent", None)
         if st is None:
             raise AnalysisError("bump result is not assigned")
-    tg = [norm_src(e) for e in st.targets[0].elts] if isinstance(st.targets[0], ast.Tuple) else []
-    args = [norm_src(a) for a in c.args]
-    ok = tg == ["biofuel_sum_billion_kcals.kcals", "feed_used_round3.kcals"] and args[:2] == tg and \
-        args[3].startswith("biofuels_demand.") and args[4].startswith("feed_demand.")
+    from .lanes import role_of
+    inl = Inliner(fn)
+    params = [a.arg for a in fn.args.args]
+    tg = [inl.src(e) for e in st.targets[0].elts] if isinstance(st.targets[0], ast.Tuple) else []
+    args = [inl.src(a) for a in c.args]
+
+    def base_param(e):
+        while isinstance(e, (ast.Attribute, ast.Call, ast.Subscript)):
+            e = e.func if isinstance(e, ast.Call) else e.value
+        return e.id if isinstance(e, ast.Name) and e.id in params else None
+
+    pb, pf = (base_param(c.args[3]), base_param(c.args[4])) if len(c.args) >= 5 else (None, None)
+    r2 = [p_ for p_ in params if "interpreted_results" in p_ and role_of(p_, ("round1", "round2", "round3")) == "round2"]
+    ok = len(tg) == 2 and args[:2] == tg and len(r2) == 1 and tg[0].startswith(f"{r2[0]}.biofuels_sum_kcals_equivalent.") and tg[0].endswith(".kcals") and \
+        tg[1].startswith("self.init_meat_and_dairy_and_feed_from_breeding(") and tg[1].endswith("[0].kcals") and \
+        pb is not None and pf is not None and role_of(pb, ("feed", "biofuel")) == "biofuel" and role_of(pf, ("feed", "biofuel")) == "feed" and \
+        "demand" in pb and "demand" in pf
     rep.check(ok, rule, "bump:(biofuel, feed) slots and ceilings",
               f"the bump is not applied as (biofuel, feed) = f(biofuel, feed, inc, biofuel demand, feed demand, ...): targets {tg}, args {args[:5]}",
               loc=loc(PARAMS, c))
@@ -343,19 +359,30 @@ def r3(index, rep, flow):
         ok = of_ == {"src:get_feed_usage"} and ob_ == {"src:get_biofuel_usage"}
     rep.check(ok, rule, "run_and_analyze -> run_round_3: demand slots", "the demands reaching round 3 are crossed or not the demand schedules", loc=loc(RUN, ras))
     # what round 3 charges
-    stores = {str_const(s.targets[0].slice): norm_src(s.value) for s in fn.body if isinstance(s, ast.Assign) and isinstance(s.targets[0], ast.Subscript)
-              and norm_src(s.targets[0].value) == "time_consts_round3"}
-    rep.check(stores.get("feed") == "feed_used_round3" and stores.get("biofuel") == "biofuel_sum_billion_kcals", rule, "round3:charges",
-              f"round 3 charges feed={stores.get('feed')}, biofuel={stores.get('biofuel')}", loc=loc(PARAMS, fn))
-    bs = [s for s in fn.body if isinstance(s, ast.Assign) and norm_src(s.targets[0]) == "biofuel_sum_billion_kcals"]
-    rep.check(len(bs) == 1 and norm_src(bs[0].value).startswith("interpreted_results_round2.biofuels_sum_kcals_equivalent."), rule,
+    rets = [r for r in fn.body if isinstance(r, ast.Return) and isinstance(r.value, ast.Tuple)]
+    tc_name = norm_src(rets[-1].value.elts[1]) if rets and len(rets[-1].value.elts) >= 2 else None
+    stores = {str_const(s.targets[0].slice): inl.src(s.value) for s in fn.body if isinstance(s, ast.Assign) and isinstance(s.targets[0], ast.Subscript)
+              and norm_src(s.targets[0].value) == tc_name}
+    okc = len(r2) == 1 and (stores.get("feed") or "").startswith("self.init_meat_and_dairy_and_feed_from_breeding(") and (stores.get("feed") or "").endswith("[0]") \
+        and (stores.get("biofuel") or "").startswith(f"{r2[0]}.biofuels_sum_kcals_equivalent.")
+    rep.check(okc, rule, "round3:charges",
+              f"round 3 does not charge (feed the round-3 herd used, biofuel found in round 2): feed={stores.get('feed', '')[:60]}, biofuel={stores.get('biofuel', '')[:60]}",
+              loc=loc(PARAMS, fn))
+    rep.check(okc and "in_units_bil_kcals_thou_tons_thou_tons_per_month()" in stores.get("biofuel", ""), rule,
               "round3:biofuel-from-round2", "round 3's biofuel charge is not the biofuel found in round 2", loc=loc(PARAMS, fn))
     herd = [x for x in walk_no_nested(fn) if isinstance(x, ast.Call) and dotted(x.func) == "CalculateFeedAndMeat"]
-    af = [norm_src(k.value) for x in herd for k in x.keywords if k.arg == "available_feed"]
-    fs = [norm_src(s.value) for s in sorted((s for s in walk_no_nested(fn) if isinstance(s, ast.Assign)
-                                             and norm_src(s.targets[0]) == "feed_sum_billion_kcals"), key=lambda s: s.lineno)]
-    ok = af == ["feed_sum_billion_kcals"] and fs and fs[0].startswith("interpreted_results_round2.feed_sum_kcals_equivalent.") and \
-        all(v.startswith("interpreted_results_round2.") or v.replace(" ", "").startswith("feed_sum_billion_kcals*0.99999") for v in fs)
+    afn = [k.value for x in herd for k in x.keywords if k.arg == "available_feed"]
+    ok = len(afn) == 1 and len(r2) == 1
+    fs = []
+    if ok:
+        if isinstance(afn[0], ast.Name) and afn[0].id in inl.defs:
+            nm = afn[0].id
+            fs = [norm_src(d).replace(" ", "") if d is not None else "?" for d in sorted(inl.defs[nm], key=lambda d: getattr(d, "lineno", 0) if d is not None else 0)]
+            ok = fs[0].startswith(f"{r2[0]}.feed_sum_kcals_equivalent.") and all(
+                v.startswith(f"{r2[0]}.feed_sum_kcals_equivalent.") or (v.startswith(f"{nm}*0.9") and float(v.split("*")[1]) <= 1) for v in fs)
+        else:
+            fs = [inl.src(afn[0])]
+            ok = fs[0].startswith(f"{r2[0]}.feed_sum_kcals_equivalent.")
     rep.check(ok, rule, "round3:herd-fed-round2-feed", "the round-3 herd is not run on the feed found in round 2 (at most scaled down)", loc=loc(PARAMS, fn),
               detail=str(fs))
     # the 20 kcal/person/day safety reduction after round 2 only lowers (clip at 0)
